@@ -26,9 +26,22 @@ class Handler:
     def qualname(self):
         return f"{self.cls.name}.{self.fn.name}"
 
+    def _lookup(self, call):
+        f = call.func
+        if isinstance(f, ast.Attribute) and isinstance(f.value, ast.Name) and f.value.id in ("self", "cls"):
+            c, fn = self.cls.find_method(f.attr)
+            return fn
+        if isinstance(f, ast.Name):
+            v = self.cls.project.resolve(self.cls.module, f.id)
+            if isinstance(v, Func):
+                return v.node
+        return None
+
     def always_raises(self) -> bool:
-        """no path from entry reaches the normal exit"""
-        return self.cfg.exit.id not in self.cfg.reachable(self.cfg.entry.id)
+        """no path from entry reaches the normal exit (calls to helpers that themselves never return count as raises)"""
+        from .paths import _reachable_with_noreturn
+
+        return self.cfg.exit.id not in _reachable_with_noreturn(self.cfg, self._lookup, 2)
 
     def returns(self) -> List[ast.Return]:
         return [n.stmt for n in self.cfg.nodes if isinstance(n.stmt, ast.Return) and n.kind == "return"]
